@@ -111,12 +111,13 @@ def _nesting_clause(repo: Repo, chk: Check, par) -> None:
     want = {
         # arg : { instr } -> the argument list of items; an explicit inner sequence stays ONE item
         ('p_arg_subseq', 'flat'): ('list', 'A', 'B'), ('p_arg_subseq', 'inner'): ('list', ('Seq', 'A')), ('p_arg_subseq', 'single'): ('list', 'C'),
-        ('p_arg_subseq', 'empty'): ('list',),
+        ('p_arg_subseq', 'empty'): ('list',), ('p_arg_subseq', 'empty-inner'): ('list', ('Seq',)),
         # instr : { instr } -> an explicit sequence
         ('p_instr_subseq', 'flat'): ('Seq', 'A', 'B'), ('p_instr_subseq', 'inner'): ('Seq', ('Seq', 'A')), ('p_instr_subseq', 'single'): ('Seq', 'C'),
-        ('p_instr_subseq', 'empty'): ('Seq',),
+        ('p_instr_subseq', 'empty'): ('Seq',), ('p_instr_subseq', 'empty-inner'): ('Seq', ('Seq',)),
     }
-    vals = {'flat': flat, 'inner': inner, 'single': single, 'empty': empty}
+    # (an explicit EMPTY inner sequence `{ {} }` is one - falsy - element: it must not be mistaken for "nothing between the braces")
+    vals = {'flat': flat, 'inner': inner, 'single': single, 'empty': empty, 'empty-inner': SeqVal([])}
     n = 0
     for mname, mk in cases.items():
         m = _prod(par, *rule_of[mname])
